@@ -119,7 +119,7 @@ func zzCommitAt(mp *mempoolImpl, m *zzPoolModel, i int) {
 }
 
 // ZZH_C18_hist: bounded history of pool operations with symbolic nonces / timestamps
-// (2 accounts, nonce within [committed-1, committed+2], k steps) under the C18/C19 monitors.
+// (2 accounts, nonce within [committed-2, committed+1], k steps) under the C18/C19 monitors.
 // zz:also C19
 func ZZH_C18_hist() { zzPoolHist() }
 
@@ -132,6 +132,9 @@ func zzPoolHist() {
 		k = 4
 	}
 	nextHash := 0
+	// thorough: the whole history is run once as a follower and once as the leader (a leader cuts a
+	// batch inside ProcessTransactions as soon as the batch size is reached)
+	asLeader := zz.Thorough() && zz.Choice("leader", 2) == 1
 	unknownCommitted := false // a committed block contained transactions this pool never saw
 	for step := 0; step < k; step++ {
 		switch zz.Choice("op", 4) {
@@ -178,20 +181,16 @@ func zzPoolHist() {
 			ai := zz.Choice("acct", 2)
 			nonce := zz.U64("nonce")
 			zz.Assume(nonce+2 >= m.committed[ai])
-			hi := uint64(1)
-			if zz.Thorough() {
-				hi = 2
-			}
-			zz.Assume(nonce <= m.committed[ai]+hi)
-			ts := zz.I64("ts")
-			zz.Assume(ts >= 1)
+			zz.Assume(nonce <= m.committed[ai]+1)
+			ts := zz.I64("ts") // (0: the client left the timestamp unset)
+			zz.Assume(ts >= 0)
 			zz.Assume(ts <= 2)
 			h := zzHashes[nextHash]
 			nextHash++
 			tx := &pb.BxhTransaction{From: zzAccts[ai], To: zzAccts[1-ai], Nonce: nonce, Timestamp: ts, TransactionHash: types.NewHashByStr(h)}
 			s := &zzSubmitted{acct: ai, nonce: nonce, hash: h, tx: tx}
 			m.subs = append(m.subs, s)
-			leader := zz.Thorough() && zz.Choice("leader", 2) == 1
+			leader := asLeader
 			b := mp.ProcessTransactions([]pb.Transaction{tx}, leader, true)
 			zzCheckBatch(m, b, batchSize)
 			got := mp.GetTransaction(tx.GetHash())
@@ -249,7 +248,7 @@ func ZZH_C18_pipeline() {
 	m.timed = zz.Choice("timedBlocks", 2) == 1
 	mp := zzNewPoolMode(batchSize, m, m.timed)
 	nextHash := 0
-	tsOrder := zz.Choice("timestampOrder", 3)
+	tsOrder := zz.Choice("timestampOrder", 4)
 	submit := func() {
 		if nextHash >= len(zzHashes) {
 			return
@@ -265,6 +264,8 @@ func ZZH_C18_pipeline() {
 			ts = int64(1 + nextHash)
 		case 2:
 			ts = int64(10 - nextHash)
+		case 3:
+			ts = 0 // the client left the timestamp unset
 		}
 		tx := &pb.BxhTransaction{From: zzAccts[0], To: zzAccts[1], Nonce: n, Timestamp: ts, TransactionHash: types.NewHashByStr(h)}
 		m.subs = append(m.subs, &zzSubmitted{acct: 0, nonce: n, hash: h, tx: tx, admitted: true})
